@@ -4,12 +4,13 @@ import PedVerif.Lemmas.CheckerSound
 namespace PedVerif.Checker
 open PedVerif.Gen.TypeTables
 
-/-- guard of the exactness theorem.  Its complement is the union of: unsupported / bare nodes, the regions
-    `emptyFixedTuple`, `typeOfUnionSubclass`, unresolvable forward references, and malformed union arities. -/
+/-- guard of the exactness theorem.  Its complement is the union of: unsupported / bare nodes, the region
+    `emptyFixedTuple`, unresolvable forward references, malformed union arities, and `Type[..]` over something else than
+    classes / Any / Unions of those. -/
 def Ann.okC (env : Env) : Ann → Bool
   | .cls _ | .clsF _ _ _ | .any | .literal _ | .newType _ => true
   | .union sp ms => okCL env ms && (match sp with | .union => decide (2 ≤ ms.length) | .optional => decide (2 = ms.length) | .pipe => true)
-  | .typeOf _ a => (match a with | .any => true | .cls _ => true | .clsF _ _ _ => true | _ => false)
+  | .typeOf _ a => typeArgOk a
   | .fwd n => (env.ctx n).isSome
   | .seq _ _ a => a.okC env
   | .map _ _ k w => k.okC env && w.okC env
@@ -29,12 +30,23 @@ theorem okCL_mem {env : Env} {ms : List Ann} (h : Ann.okC.okCL env ms = true) : 
     · exact h.1
     · exact ih h.2 m hm
 
+theorem any_congr_mem {α} {f g : α → Bool} : ∀ (l : List α), (∀ x ∈ l, f x = g x) → l.any f = l.any g
+  | [], _ => rfl
+  | x :: xs, h => by
+    simp only [List.any_cons, h x (by simp), any_congr_mem xs (fun y hy => h y (by simp [hy]))]
+
+theorem typeArgOk_convOk (a : Ann) (h : typeArgOk a = true) : convOk a = true := by
+  cases a <;> simp_all [typeArgOk, classLike, convOk, cfg_convGuard]
+
+theorem memberSub_eq_spec {env : Env} (c : ClsId) (m : Ann) (h : classLike m = true) : memberSub env c m = memberSpec env c m := by
+  cases m <;> simp_all [classLike, memberSub, memberSpec]
+
 /-- on the guarded vocabulary `convert_to_typing_types` always succeeds (after the two repairs of the PEP 585 path) -/
 theorem okC_convOk_a (env : Env) : ∀ a, a.okC env = true → convOk a = true := by
   apply convOk.induct
     (motive_1 := fun as => Ann.okC.okCL env as = true → convOk.convOkL as = true)
     (motive_2 := fun a => a.okC env = true → convOk a = true)
-  case case4 => intro a _ h; simp only [Ann.okC] at h; cases a <;> simp_all [convOk, cfg_convertible]
+  case case4 => intro a _ h; simp only [Ann.okC] at h; simp [convOk, cfg_convertible, typeArgOk_convOk a h]
   all_goals (intros; simp_all [convOk, convOk.convOkL, Ann.okC, Ann.okC.okCL, cfg_convGuard, cfg_convertible])
 theorem okC_convOk_l (env : Env) : ∀ as, Ann.okC.okCL env as = true → convOk.convOkL as = true := by
   intro as
@@ -173,17 +185,19 @@ theorem tupleVarNode_exact {env : Env} {pc : Bool} {sp0 : Spell} {a : Ann} {v : 
   · simp [hsub]
 
 theorem typeOfNode_exact {env : Env} (hw : WfEnv env) {pc : Bool} {sp0 : Spell} {a : Ann} {v : Val} (hwf : v.wf env = true)
-    (hp : v.plain = true) (ha : (match a with | .any => true | .cls _ => true | .clsF _ _ _ => true | _ => false) = true) :
+    (hp : v.plain = true) (ha : typeArgOk a = true) :
     typeOfNode env pc sp0 a v = .ok (conforms env (.typeOf sp0 a) v) := by
   simp only [conforms]
   unfold typeOfNode
-  have hconv : convOk a = true := by cases a <;> simp_all [convOk]
+  have hconv : convOk a = true := typeArgOk_convOk a ha
   simp only [cfg_req_type, cfg_req_Type, cfg_genericChecksOrigin, cfg_origin_type, not_asdict_of_plain hp, cfg_convertible, hconv,
     Bool.true_and, Bool.not_true, Bool.false_eq_true, ↓reduceIte, Bool.and_false, Bool.and_true]
   by_cases hsub : env.sub (v.typeOf env) env.typeCls = true
   · obtain ⟨c, rfl⟩ := (shape_of_wf hwf).1 hsub
     simp only [hsub, Bool.not_true, Bool.false_eq_true, ↓reduceIte]
-    cases a <;> simp_all [isSubtypeCls, subSpec]
+    cases a <;> simp_all [isSubtypeCls, subSpec, typeArgOk, classLike, cfg_unionSuper.1]
+    rename_i sp ms
+    exact any_congr_mem ms (fun m hm => memberSub_eq_spec c m (ha m hm))
   · simp only [hsub, Bool.not_false, ↓reduceIte]
     cases v <;> simp_all [Val.typeOf]
     rename_i c; exact absurd (hw.metaSub c) (by simpa using hsub)
